@@ -52,6 +52,7 @@ GRAMMARS = [
      {'B1': '1', 'B2': '2', 'B3': '3', 'V': 'v', 'T': 't', 'E1': 'a', 'E2': 'b', 'E3': 'c'}),
     ('merged-la4', 'start: KA g QA | KB g QB\ng: f\nf: e | e HH\ne: NN\nKA: "k"\nKB: "j"\nQA: "q"\nQB: "u"\nHH: "h"\nNN: "n"\n',
      {'KA': 'k', 'KB': 'j', 'NN': 'n', 'HH': 'h', 'QA': 'q', 'QB': 'u'}),
+    ('sep-inl', 'start: item (_sep item)*\nitem: A\n_sep: _C\nA: "a"\n_C: ","\n', {'A': 'a', '_C': ','}),
     ('plus-inl', 'start: _i+ E\n_i: A B?\nA: "a"\nB: "b"\nE: "e"\n', {'A': 'a', 'B': 'b', 'E': 'e'}),
 ]
 OPTS = [('plain', {}), ('pos', {'propagate_positions': True}), ('ph', {'maybe_placeholders': True, 'keep_all_tokens': True}),
@@ -340,7 +341,7 @@ def explore(gi, oi, depth, res, only=None, lean=False):
 
 # --------------------------------------------------------------------------------------------------- part B: text attached
 
-TEXTS = {'inl-leftrec': ['a,a,a', 'a,a', 'a,,a'], 'rightrec': ['a,a,a', 'a'], 'star': ['abab', 'ba'], 'nullable-tail': ['abb', 'a'],
+TEXTS = {'sep-inl': ['a,a,a', 'a,a'], 'inl-leftrec': ['a,a,a', 'a,a', 'a,,a'], 'rightrec': ['a,a,a', 'a'], 'star': ['abab', 'ba'], 'nullable-tail': ['abb', 'a'],
          'plus-inl': ['abae', 'aae', 'abb']}
 
 
@@ -464,6 +465,34 @@ def part_c(gi, lexer, res, only=None):
                 res['nontrivial'] += 1
                 if got != want:
                     res['viol'].append({'kind': 'resume-from-error-state', 'cause': 'resume-error', 'case': case, 'expected': want, 'observed': got})
+                    continue
+                # several repairs tried from ONE immutable snapshot of the error state: each child (snapshot.feed_token(r))
+                # resumed in turn must equal a fresh parser fed  tokens-before + r + tokens-after
+                try:
+                    p.parse(t2)
+                except UnexpectedToken as e3:
+                    snap = e3.interactive_parser.as_immutable()
+                for r in sorted(t for t in snap.accepts() if t in terms):
+                    rt = Token(r, terms[r], start_pos=err.token.start_pos, line=1, column=err.token.start_pos + 1,
+                               end_line=1, end_column=err.token.start_pos + 2, end_pos=err.token.start_pos + 1)
+                    ref = p.parse_interactive()
+                    try:
+                        for t in toks[:k] + [rt] + toks[k + 1:]:
+                            ref.feed_token(t)
+                        want = ('ok', obs.canon(ref.feed_eof(toks[-1]), pos=True))
+                    except UnexpectedInput as e2:
+                        want = _exc_obs(e2)
+                    try:
+                        child = snap.feed_token(rt)
+                        got = ('ok', obs.canon(child.resume_parse(), pos=True))
+                    except UnexpectedInput as e2:
+                        got = _exc_obs(e2)
+                    res['transitions'] += 2
+                    res['nontrivial'] += 1
+                    if got != want:
+                        res['viol'].append({'kind': 'repair-from-immutable-snapshot', 'cause': 'snapshot-repair', 'case': dict(case, repair=r),
+                                            'expected': want, 'observed': got})
+                        break
 
 
 def plan(tier, seed):
